@@ -45,12 +45,12 @@ Definition ex_box : list bentry :=
    bzero; bzero; mkbentry (ex_dec 300000) true].
 
 Lemma ex_file_hyps :
-  ex_title <> [] /\ no_nl ex_title /\ length ex_box = 9 /\
+  no_nl ex_title /\ length ex_box = 9 /\
   numbered (concat ex_blocks) 1%Z <> [] /\
   Forall (rec_ok 8 false) (map to_grec (numbered (concat ex_blocks) 1%Z)) /\
   (Z.of_nat (length (numbered (concat ex_blocks) 1%Z)) < 1000000000)%Z.
 Proof.
-  split; [discriminate|]. split; [reflexivity|]. split; [reflexivity|]. split; [discriminate|].
+  split; [reflexivity|]. split; [reflexivity|]. split; [discriminate|].
   split; [|vm_compute; reflexivity].
   repeat constructor; simpl; try lia; try reflexivity.
 Qed.
@@ -79,4 +79,13 @@ Proof. reflexivity. Qed.
 Lemma ex_residue_mismatch :
   extrapolate ex_mapmol tt (ex_title ++ [NL]) ex_box ex_sps [mkInst 2 [5]%Z tt; mkInst 0 [7]%Z tt; mkInst 2 [6]%Z tt]
   = (frame tt (ex_title ++ [NL]) ex_box [mkLine 5%Z ["I"; "O"; "N"] ["N"; "A"] 1%Z (ex_pay 0 0 5)], Err EValue).
+Proof. vm_compute. reflexivity. Qed.
+
+(* an input whose title line is empty ("\n"): the writer model succeeds on the trace and the reader model finds the
+   empty title line, 7 atoms, the box *)
+Lemma ex_empty_title :
+  match trace_file (fst (extrapolate ex_mapmol tt ([] ++ [NL]) ex_box ex_sps ex_mols)) with
+  | Ok file => rmap (fun r => (r_comment r, r_natoms r, length (r_atoms r))) (read_gro file) = Ok ([NL], 7%Z, 7)
+  | Err _ => False
+  end.
 Proof. vm_compute. reflexivity. Qed.
